@@ -65,6 +65,22 @@ def run(m, chk):
                     between = [n for n in r.stmt_nodes(ctx) if n.id in ctx.cfg.reachable_from_succ(d.id, exc=False) and cr.cfgnode in ctx.cfg.reachable(n.id, exc=False) and n.id != cr.cfgnode and isinstance(n.ast, (ast.Assign, ast.AugAssign)) and any(isinstance(t, ast.Name) and t.id == a_nodes.id for t in (n.ast.targets if isinstance(n.ast, ast.Assign) else [n.ast.target]))]
                     ok = calls_f and same and not between
                     why = f"samples are taken over `{seg(it, 20)}` but `{a_nodes.id}` is passed on" if not same else ("the nodes are rebound between sampling and fitting" if between else "the samples are not function(node)")
+            if not ok:
+                # the same sampling written as a loop: `vals = []` ... `for x in nodes: vals.append(function(x))`
+                fname = ctx.fi.params[1]
+                for lp in ast.walk(ctx.fi.node):
+                    if not (isinstance(lp, ast.For) and isinstance(lp.iter, ast.Name) and isinstance(lp.target, ast.Name)):
+                        continue
+                    apps = [x for x in ast.walk(lp) if isinstance(x, ast.Call) and isinstance(x.func, ast.Attribute) and x.func.attr == "append" and isinstance(x.func.value, ast.Name) and x.func.value.id == a_vals.id and x.args]
+                    if not apps:
+                        continue
+                    calls_f = all(isinstance(x.args[0], ast.Call) and isinstance(x.args[0].func, ast.Name) and x.args[0].func.id == fname and x.args[0].args and seg(x.args[0].args[0]) == lp.target.id for x in apps)
+                    same = lp.iter.id == a_nodes.id
+                    lpn = next((n for n in ctx.cfg.nodes if n.ast is lp), None)
+                    between = [] if lpn is None else [n for n in r.stmt_nodes(ctx) if n.id in ctx.cfg.reachable_from_succ(lpn.id, exc=False) and cr.cfgnode in ctx.cfg.reachable(n.id, exc=False) and n.id != cr.cfgnode and isinstance(n.ast, (ast.Assign, ast.AugAssign)) and any(isinstance(t, ast.Name) and t.id == a_nodes.id for t in (n.ast.targets if isinstance(n.ast, ast.Assign) else [n.ast.target]))]
+                    ok = calls_f and same and not between
+                    why = f"samples are taken over `{lp.iter.id}` but `{a_nodes.id}` is passed on" if not same else ("the nodes are rebound between sampling and fitting" if between else "the samples are not function(node)")
+                    break
         chk.ob("SAME-NODES", f"{FF}: the function is sampled at exactly the nodes handed to fit_points", ok, loc=r.loc(ctx, cr.node), detail="" if ok else f"{FF}: {why}: the data are attached to the wrong parameters", func=FF, construct="sampling nodes differ from fitting nodes")
         v = ctx.val(a_vals) if a_vals is not None else None
         have = v.all_dep() if v is not None else set()
